@@ -11,6 +11,7 @@ import (
 func init() {
 	vpRegister("vpH_C16_stats", vpH_C16_stats)
 	vpRegister("vpH_C16_afterfail", vpH_C16_afterfail)
+	vpRegister("vpH_C16_later", vpH_C16_later)
 	vpRegister("vpH_K11_statsmerge", vpH_K11_statsmerge)
 	vpRegister("vpH_C17_assoc", vpH_C17_assoc)
 	vpRegister("vpH_C18_match", vpH_C18_match)
@@ -66,6 +67,27 @@ func vpH_C16_afterfail() {
 	vpNote("feat:merged-stats")
 	vpStatsCheck("merged after a failed merge", vpLoad(mb), vpBuildExpect(surv, vpFieldNames(a, b)), true)
 	vpReach("C16 afterfail end")
+}
+
+// C16 for a built segment that stays in memory while the pooled builder builds
+// other batches: its statistics still describe its own documents.
+func vpH_C16_later() {
+	g := vpNewGen(0)
+	a := g.batch("A", 1, 2, []int{3, 5, 10})
+	g.done()
+	vpSetLengths(a)
+	vpPoolReuse(true)
+	vpPoolFlush()
+	sa := vpBuild(a, 1025)
+	later := [][]*vpDoc{
+		{{fields: []*vpField{{name: "a", length: 7, terms: []*vpTerm{{term: []byte("k"), freq: 7}}}}}, {fields: []*vpField{{name: "a", length: 1, terms: []*vpTerm{{term: []byte("k"), freq: 1}}}}}, {}},
+		{{fields: []*vpField{{name: "zz", length: 2, terms: []*vpTerm{{term: []byte("k"), freq: 2}}}}}},
+		{},
+	}[vpChoice("later-batch", 3)]
+	vpBuild(later, 1)
+	vpPoolReuse(false)
+	vpStatsCheck("built, after a later build", sa, vpBuildExpect(a, nil), false)
+	vpReach("C16 later end")
 }
 
 func vpH_C16_stats() {
@@ -171,6 +193,23 @@ func vpH_C17_assoc() {
 	}
 	abc2, _ := vpMergeBytes([]*Segment{sa, vpLoad(bc)}, []*roaring.Bitmap{nil, tr}, 1025)
 	vpSameObs("a(bc) vs abc", obsAll, vpObserve(vpLoad(abc2), probeF, probeT))
+
+	// everything of a and b deleted: the inner merge (a b) leaves a zero-document
+	// segment that still carries the fields of a and b
+	allA, allB := roaring.New(), roaring.New()
+	for i := range a {
+		allA.Add(uint32(i))
+	}
+	for i := range b {
+		allB.Add(uint32(i))
+	}
+	onlyC, _ := vpMergeBytes([]*Segment{sa, sb, sc}, []*roaring.Bitmap{allA, allB, nil}, 1025)
+	obsOnlyC := vpObserve(vpLoad(onlyC), probeF, probeT)
+	abZ, _ := vpMergeBytes([]*Segment{sa, sb}, []*roaring.Bitmap{allA, allB}, 1025)
+	abZc, _ := vpMergeBytes([]*Segment{vpLoad(abZ), sc}, []*roaring.Bitmap{nil, nil}, 1025)
+	vpSameObs("(ab: all deleted)c vs abc", obsOnlyC, vpObserve(vpLoad(abZc), probeF, probeT))
+	cabZ, _ := vpMergeBytes([]*Segment{sc, vpLoad(abZ)}, []*roaring.Bitmap{nil, nil}, 1025)
+	vpSameObs("c(ab: all deleted) vs abc", obsOnlyC, vpObserve(vpLoad(cabZ), probeF, probeT))
 
 	// identity: merging the result alone changes nothing
 	id, _ := vpMergeBytes([]*Segment{vpLoad(all)}, []*roaring.Bitmap{nil}, 1025)
